@@ -218,6 +218,13 @@ func QuantileCI(n int, q, confidence float64) QuantileCIResult {
 		}
 		l = floorInt(math.Floor(l1-0.5)+0.5) + 1
 		r = floorInt(math.Ceil(r1-0.5)+0.5) + 1
+		if r <= l {
+			// The confidence is so low that [l1, r1] is a
+			// single point, and it falls exactly on a
+			// band boundary, so it rounded out to
+			// nothing. Take the band above it.
+			r = l + 1
+		}
 
 		if debug {
 			fmt.Printf("  [%v,%v] rounds to [%v,%v]\n", l1, r1, l, r)
